@@ -1,4 +1,4 @@
-import Mltwist.Lemmas.EmulatorLifted
+import Mltwist.Lemmas.EmulatorStart
 /-
 C03 — emulation agrees step by step with a RISC-V machine.
 
@@ -15,30 +15,38 @@ registers/memories represents the machine state `σ`; `Agree p code ρ s` = the 
 not-yet-asked answers of the provider `p` represent `ρ` (on every width the code observes a register with);
 `R p code σ s` = both, plus "the emulator's instruction pointer is `σ.pc`" and the invariants.
 
-PROVED here (each for every provider, code, state, valuation — no sampling):
-* `never_panics`        a step from a ready state is an error iff no instruction starts at the
-                        instruction pointer, never a panic (in particular not the F03 panic), whole runs;
-* `eval_is_value`       the constant `eval` computes = `Expr.eval` under the represented valuation
-                        (evaluation of the closed substituted expression, C09);
+PROVED here (for every provider, image, state, step count — no sampling):
+* `statement`           THE FULL CLAIM (`Statement`): the reference machine runs on its OWN memory (fetch at `pc`,
+                        `Spec.Rv.decode`, `Spec.Rv.exec 64`); as long as it leaves the code blocks intact
+                        (`Intact`: the program does not modify its code), stays on instructions of the code and
+                        keeps its accesses below the top of the address space (`InScope`: `addr + n < 2^64`), the
+                        emulator makes the same number of SUCCESSFUL steps (no error, no panic) and the states are
+                        related (`R`) after every step; its next step reports exactly `specReport` (the registers
+                        and bytes read and written with the reference's values), or is the error exactly when the
+                        reference's `pc` is not at an instruction of the code.
+  Its parts, each a theorem of its own:
+* `never_panics`        a step from a ready state is an error iff no instruction starts at the instruction
+                        pointer, never a panic (in particular not the F03 panic); whole runs;
+* `load_folds_to_constant` whatever a memory that stores constants returns folds to a constant (REPAIR F03);
+* `eval_is_value`       the constant `eval` computes = `Expr.eval` under the represented valuation (C09);
 * `step_is_applyEffects` one step = `Spec.Lift.Env.applyEffects` + `nextIp` on the represented valuation;
-* `report_exact`        the `Step` report = `specReport ρ effects`: exactly the loads of the effect
-                        expressions and the stores of the effects, with their values;
+* `report_exact`        the `Step` report = `specReport ρ effects`;
+* `code_of_image_wellformed` every expression the RV64IMA tables lift, before and after `ConstFold`, has
+                        widths 1..255 (table-wide: `Lemmas/RiscvLiftWF.lean`, `EmulatorFoldWF.lean`);
+* `memory_shape`        every `MemLoad` node and `MemStore` of a lifted instruction (also after folding) addresses
+                        exactly the reference's `accessRange` (table-wide: `Lemmas/RiscvLiftNodes.lean`), so the
+                        emulator's accesses lie in the domain of C14 whenever the reference's do (`stepDom_of_static`);
+* `fetch`               with the code intact the reference fetches the word the instruction was lifted from and
+                        its decoder names the entry it was lifted by (C02);
 * `refinement_step`, `refinement_run`, `refinement_err`, `related_at_start`
-                        composition with C01 (`lift_correct`): `R` is preserved by every step of an
-                        instruction lifted from the tables, hence after every number of steps.
+                        composition with C01 (`lift_correct`): `R` is preserved by every step.
 
-* `code_of_image_wellformed`: every expression the RV64IMA tables lift, before and after `ConstFold`, has
-                        widths 1..255 (table-wide: `Lemmas/RiscvLiftWF.lean`, `EmulatorFoldWF.lean`), so the
-                        well-formedness side conditions are THEOREMS for the code view of every image.
-
-NOT proved (`Statement` below is the full claim; the theorems above are its parts `…_partial` in the
-sense of the framework): the side conditions `Scope'` of `refinement_run` are assumed, not derived —
-  (1) `StepDom` from `noWrap`: every memory load the EMULATOR performs (it evaluates all `MemLoad` nodes,
-      also in untaken `Less` branches) reads exactly the reference's `accessRange` (a table-wide fact about
-      the shape of the lifted expressions), so that `addr + w < 2^64` transfers;
-  (2) non-self-modification: that the word the reference fetches from ITS memory at `pc` is the word the
-      instruction of the code view was lifted from (`RefSteps` executes the lifted instruction);
-  (3) `LookupExact` (C07) and "the instructions of `deps.Code` are `liftCode` of the image" (C21).
+What `Statement` still ASSUMES (all outside this model): `LookupExact` — `deps.Code.Address` + `Block.Address`
+find exactly the instruction whose current address equals ip (C07); the instructions of `deps.Code` are
+`liftCode` of the image's code blocks (C21); the start states are related — `tool_start_related` proves this
+for the state the tool starts from whenever the provider answers consistently with one machine state
+(`ProviderFor`).  Scope of the claim: programs that do not modify their code,
+accesses with `addr + n < 2^64` (C14's domain), code blocks that do not wrap around the address space.
 -/
 namespace Mltwist.Props.C03
 open Mltwist Mltwist.State Mltwist.Overlay Mltwist.Emulator Mltwist.Riscv
@@ -47,46 +55,50 @@ open Mltwist.Lemmas.Emulator
 
 /-! ### the full statement -/
 
-/-- the reference machine on its own: fetch four bytes at `pc`, decode, execute -/
-def refStep (σ : St) : Option St :=
-  match decode 64 true true (σ.load σ.pc 4) with
-  | some name => exec 64 name (σ.load σ.pc 4) σ
-  | none => none
+/-- C03 in full over the model (`Statement`, `refStep`, `refRun`, `Intact`, `InScope`, `BlocksOK` are defined in
+`Lemmas/EmulatorFull.lean` / `EmulatorFetch.lean`): for every provider `p`, every image `blocks` (not wrapping
+around the address space) whose code lifts to `code`, all related start states `σ0`, `s0` and every `n`: if during
+the first `n` steps of the reference machine ON ITS OWN MEMORY the code blocks stay intact, the accesses stay
+below `2^64` and (before step `n`) the `pc` is at an instruction of the code, then the emulator makes `n`
+successful steps, is related to the reference's state, and its next step is the error if the `pc` has left
+the instructions of the code and otherwise succeeds with the report `specReport ρ effects` for a valuation
+`ρ` representing the reference state. -/
+theorem statement : Statement := statement_holds
 
-def refRun : Nat → St → Option St
-  | 0, σ => some σ
-  | n + 1, σ => match refStep σ with
-    | some σ' => refRun n σ'
-    | none => none
+/-- the statement unfolded, to be read without the definitions -/
+example : Statement =
+    (∀ (p : Provider) (blocks : List (Nat × List UInt8)) (code : CodeView) (σ0 : St) (s0 : State),
+      BlocksOK blocks → liftCode blocks = some code → R p code σ0 s0 →
+      ∀ n σn,
+        (∀ k σk, k ≤ n → refRun k σ0 = some σk → Intact blocks σk ∧ InScope σk) →
+        (∀ k σk, k < n → refRun k σ0 = some σk → code.lookup σk.pc ≠ none) →
+        refRun n σ0 = some σn →
+        ∃ sn, stateAfter p code n s0 = some sn ∧ R p code σn sn ∧
+          (code.lookup σn.pc = none → step p code sn = .err) ∧
+          (∀ ins, code.lookup σn.pc = some ins →
+            ∃ s' log ρ, Rel ρ σn ∧ step p code sn = .ok s' (specReport ρ ins.effects) log)) := rfl
 
-/-- the code blocks are still in the reference's memory (the program has not modified its code) -/
-def Intact (blocks : List (Nat × List UInt8)) (σ : St) : Prop :=
-  ∀ b ∈ blocks, ∀ i, (h : i < b.2.length) → σ.mem (b.1 + i) % 256 = (b.2[i]).toNat
+/-- with the code intact the reference fetches the word the instruction was lifted from, and the reference
+decoder (C02) names the table entry it was lifted by -/
+theorem fetch {blocks : List (Nat × List UInt8)} {code : CodeView} (hok : BlocksOK blocks)
+    (hc : liftCode blocks = some code) {σ : St} (hint : Intact blocks σ) {ins : Emulator.Ins}
+    (hl : code.lookup σ.pc = some ins) :
+    ∃ e, LiftedFrom ins e (σ.load σ.pc 4) ∧ decode 64 true true (σ.load σ.pc 4) = some e.name :=
+  fetch_lifted hok hc hint hl
 
-/-- the memory access of the next instruction of the reference stays below the top of the address space -/
-def InScope (σ : St) : Prop :=
-  ∀ name, decode 64 true true (σ.load σ.pc 4) = some name →
-    ∀ a n, accessRange 64 name (σ.load σ.pc 4) σ = some (a, n) → a + n < 2 ^ 64
-
-/-- C03 in full: for every provider, every image whose code blocks lift to the code view `code`, every
-pair of related start states, and every number `n` of steps during which the program leaves its code
-intact and its accesses in scope: if the reference makes `n` steps the emulator makes `n` successful steps
-into a related state, each step reporting `specReport`; and then the emulator's next step is the error
-exactly when the reference's `pc` is not the start of a lifted instruction; it is never a panic. -/
-def Statement : Prop :=
-  ∀ (p : Provider) (blocks : List (Nat × List UInt8)) (code : CodeView) (σ0 : St) (s0 : State),
-    liftCode blocks = some code → R p code σ0 s0 →
-    ∀ n σn, (∀ k σk, k ≤ n → refRun k σ0 = some σk → Intact blocks σk ∧ InScope σk) →
-      refRun n σ0 = some σn →
-      ∃ sn, stateAfter p code n s0 = some sn ∧ R p code σn sn ∧
-        (code.lookup σn.pc = none → step p code sn = .err) ∧
-        (∀ ins, code.lookup σn.pc = some ins → ∃ s' rep log ρ, step p code sn = .ok s' rep log ∧
-          Rel ρ σn ∧ rep = specReport ρ ins.effects)
+/-- every load node and every store of a lifted instruction addresses the reference's access range, so the
+emulator's accesses lie in the domain of C14 whenever the reference's do -/
+theorem memory_shape (p : Provider) (code : CodeView) {σ : St} {s : State} {ins : Emulator.Ins} {e : Entry}
+    {word : Nat} (hR : R p code σ s) (hl : code.lookup σ.pc = some ins) (hlift : LiftedFrom ins e word)
+    (hs : RefScope e.name word σ) : StepDom p code s ins := by
+  obtain ⟨ρ, hrel, hagree⟩ := hR.rep
+  exact stepDom_of_static hR.ready.inv hagree (lookup_mem hl) hlift.wf.2
+    (effStatic_of_lifted hlift (lookup_addr hl) hR.wf hrel hs)
 
 /-! ### never a panic; an error exactly when no instruction starts at the instruction pointer -/
 
 /-- one step, from any ready state of any (well-formed) code, whatever the provider answers -/
-theorem never_panics_step_partial (p : Provider) (code : CodeView) {s : State} (hr : Ready s) (hw : CodeWF code)
+theorem never_panics_step (p : Provider) (code : CodeView) {s : State} (hr : Ready s) (hw : CodeWF code)
     (hd : ∀ c ins, assocGet Emulator.ipKey s.regs = some (.const c) →
       code.lookup (leToNat c % 2 ^ 64) = some ins → StepDom p code s ins) :
     ∃ c, assocGet Emulator.ipKey s.regs = some (.const c) ∧
@@ -99,7 +111,7 @@ theorem never_panics_step_partial (p : Provider) (code : CodeView) {s : State} (
   step_ready p code hr hw hd
 
 /-- whole runs: no outcome of any step is a panic, and the run ends in a ready state -/
-theorem never_panics_partial (p : Provider) (code : CodeView) (hw : CodeWF code) (n : Nat) (s : State)
+theorem never_panics (p : Provider) (code : CodeView) (hw : CodeWF code) (n : Nat) (s : State)
     (hr : Ready s) (hd : RunDom p code n s) :
     Ready (run p code n s).2 ∧ ∀ o ∈ (run p code n s).1, match o with | .panic _ => False | _ => True :=
   let h := run_log p code hw n s hr hd
@@ -118,7 +130,7 @@ theorem load_folds_to_constant {m : MemMap} (hi : m.Inv) (hc : MemsConst m) {key
 
 /-- the constant `eval` returns for an expression of the code (all of whose loads are present in the
 state after the provider calls) is the value of the expression under the represented valuation -/
-theorem eval_is_value_partial {p : Provider} {code : CodeView} {ρ : Env} {s : State} (hi : Inv s)
+theorem eval_is_value {p : Provider} {code : CodeView} {ρ : Env} {s : State} (hi : Inv s)
     (ha : Agree p code ρ s) {e : Expr} (hp : Present s e) (hle : RegsLe code e) :
     leToNat (valBytes s e) = e.eval ρ :=
   valBytes_eval hi ha hp hle
@@ -134,7 +146,7 @@ theorem eval_computes (p : Provider) (code : CodeView) (e : Expr) (c : Ctx) (hi 
 provider calls `log` extend the state to `s1`, which still represents `ρ` (effects are evaluated against
 the PRE-state); the new state represents `ρ` with the effects applied in order and the instruction
 pointer at the last instruction-pointer write, else at the end of the instruction. -/
-theorem step_is_applyEffects_partial (p : Provider) (code : CodeView) {s : State} {ρ : Env} {c : List UInt8}
+theorem step_is_applyEffects (p : Provider) (code : CodeView) {s : State} {ρ : Env} {c : List UInt8}
     {ins : Emulator.Ins} (hr : Ready s) (ha : Agree p code ρ s)
     (hip : assocGet Emulator.ipKey s.regs = some (.const c))
     (hl : code.lookup (leToNat c % 2 ^ 64) = some ins) (hw : InsWF ins) (hd : StepDom p code s ins) :
@@ -146,7 +158,7 @@ theorem step_is_applyEffects_partial (p : Provider) (code : CodeView) {s : State
   step_sound p code hr ha hip hl hw hd
 
 /-- … and its report lists exactly the registers and bytes read and written, with the values of `ρ` -/
-theorem report_exact_partial (p : Provider) (code : CodeView) {s : State} {ρ : Env} {c : List UInt8}
+theorem report_exact (p : Provider) (code : CodeView) {s : State} {ρ : Env} {c : List UInt8}
     {ins : Emulator.Ins} (hr : Ready s) (ha : Agree p code ρ s)
     (hip : assocGet Emulator.ipKey s.regs = some (.const c))
     (hl : code.lookup (leToNat c % 2 ^ 64) = some ins) (hw : InsWF ins) (hd : StepDom p code s ins) :
@@ -166,7 +178,7 @@ theorem lifted_instruction {addr : Nat} {bs : List UInt8} {ins : Emulator.Ins} (
 
 /-- the emulator the tool starts is related to the reference state whose registers and memory are "what
 the state holds, else what the provider would answer" -/
-theorem related_at_start_partial {p : Provider} {code : CodeView} {σ : St} {s0 : State} {ρ : Env} (hi : Inv s0)
+theorem related_at_start {p : Provider} {code : CodeView} {σ : St} {s0 : State} {ρ : Env} (hi : Inv s0)
     (hwf : St.WF 64 σ) (hrel : Rel ρ σ) (ha : Agree p code ρ s0) : R p code σ (Emulator.new σ.pc s0) :=
   R_new hi hwf hrel ha
 
@@ -180,23 +192,34 @@ theorem code_of_image_wellformed {blocks : List (Nat × List UInt8)} {code : Cod
   obtain ⟨e, word, hl⟩ := liftCode_lifted blocks code h ins hins
   exact ⟨e, word, hl, hl.wf.1⟩
 
-/-- one step: the reference executes the lifted instruction, the emulator's `Step` succeeds, related again -/
-theorem refinement_step_partial (p : Provider) (code : CodeView) {σ : St} {s : State} {ins : Emulator.Ins}
+/-- … concretely: for a provider that answers consistently with one machine state (`ProviderFor`), the
+emulator `cmd/mltwist` creates — pre-set registers, the image under an empty sparse memory, `emulator.New` —
+is related to the reference machine "pre-set value / image byte, otherwise the provider's answer" -/
+theorem tool_start_related {p : Provider} {code : CodeView} {V : String → Nat} {B : String → Nat → Nat}
+    (hp : ProviderFor p code V B) (pre : List (String × List UInt8)) {image bs : List BytesMem.Block}
+    (h : BytesMem.newBytes image = .ok bs) (entry : Nat) (he : entry < 2 ^ 64)
+    (hwf : ∀ k, (startEnv (toolState pre bs) V B).reg k < 2 ^ 64) :
+    R p code (stOf (startEnv (toolState pre bs) V B) entry) (Emulator.new entry (toolState pre bs)) :=
+  start_related hp pre h entry he hwf
+
+/-- one step: the reference executes the lifted instruction, the emulator's `Step` succeeds, related again;
+the only side condition is on the reference (its access lies in the domain of C14) -/
+theorem refinement_step (p : Provider) (code : CodeView) {σ : St} {s : State} {ins : Emulator.Ins}
     {e : Entry} {word : Nat} (hR : R p code σ s) (hl : code.lookup σ.pc = some ins)
-    (hlift : LiftedFrom ins e word) (hnw : noWrap 64 e.name word σ = true) (hd : StepDom p code s ins) :
+    (hlift : LiftedFrom ins e word) (hs : RefScope e.name word σ) :
     ∃ σ', exec 64 e.name word σ = some σ' ∧ ∃ s' rep log, step p code s = .ok s' rep log ∧ R p code σ' s' :=
-  refine_step' p code hR hl hlift hnw hd
+  refine_step'' p code hR hl hlift hs
 
 /-- the emulator fails exactly when the reference's `pc` is not the start of an instruction of the code -/
-theorem refinement_err_partial (p : Provider) (code : CodeView) {σ : St} {s : State} (hR : R p code σ s)
+theorem refinement_err (p : Provider) (code : CodeView) {σ : St} {s : State} (hR : R p code σ s)
     (hl : code.lookup σ.pc = none) : step p code s = .err :=
   refine_err p code hR hl
 
 /-- by induction: after every number of steps -/
-theorem refinement_run_partial (p : Provider) (code : CodeView) (n : Nat) (σ σn : St) (s : State)
-    (hR : R p code σ s) (hs : Scope' p code n σ s) (hrun : RefSteps code n σ σn) :
+theorem refinement_run (p : Provider) (code : CodeView) (n : Nat) (σ σn : St) (s : State)
+    (hR : R p code σ s) (hs : RefRunScope code n σ) (hrun : RefSteps code n σ σn) :
     ∃ sn, stateAfter p code n s = some sn ∧ R p code σn sn :=
-  refine_run' p code n σ σn s hR hs hrun
+  refine_run'' p code n σ σn s hR hs hrun
 
 /-! ### non-vacuity -/
 
